@@ -180,8 +180,10 @@ func concurrent(run *ev.Run, thorough bool) {
 			names = append(names, strings.Join(th, ";"))
 		}
 		desc := "concurrent: " + sc.name + ": setup " + strings.Join(sc.setup, " ") + " then " + strings.Join(names, " || ") + " then " + strings.Join(sc.after, " ")
+		// wall-clock share of this scenario (all bounds): what does not finish inside it is reported as capped
+		deadline := run.DeadlineIn(time.Duration(run.Pick(60, 240)) * time.Second)
 		for b := 0; b <= bound; b++ {
-			st := vsched.Explore(vsched.Config{Name: sc.name, Bound: b, Stall: 120 * time.Second, MaxExec: run.Pick(4000, 100000)}, concBody(sc))
+			st := vsched.Explore(vsched.Config{Name: sc.name, Bound: b, Stall: 120 * time.Second, MaxExec: run.Pick(4000, 100000), Deadline: deadline}, concBody(sc))
 			if st.Infra != "" {
 				if st.StallReproduced {
 					run.Violation("call-never-returns-under-schedule", fmt.Sprintf("%s: the same schedule stalled three times: %s", sc.name, st.Infra), map[string]interface{}{"scenario": sc.name, "schedule": st.StallSchedule})
